@@ -239,6 +239,18 @@ pub fn run(op: &str, v: &Value) -> Value {
             let r2 = if same { c.is_subtype(a, &ta, b, &ta) } else { c.is_subtype(a, &ta, b, &tb) };
             json!({"ok": r.is_ok(), "again": r2.is_ok(), "err": r.err().map(|e| format!("{e:#}"))})
         }
+        "package_from_wat" => {
+            let wat_text = v["wat"].as_str().unwrap();
+            let bytes = match wat::parse_str(wat_text) {
+                Ok(b) => b,
+                Err(e) => return json!({"wat_error": format!("{e}")}),
+            };
+            let mut types = Types::default();
+            match Package::from_bytes("test:pkg", None, bytes, &mut types) {
+                Ok(p) => json!({"ok": true, "definitions": p.definitions().keys().cloned().collect::<Vec<_>>()}),
+                Err(e) => json!({"error": format!("{e:#}")}),
+            }
+        }
         _ => unreachable!(),
     }
 }
